@@ -177,6 +177,10 @@ class Gen:
                 c_f["l_fin"] = ctx["l_fin"] + 1
                 c_f["locals"] = list(ctx["locals"])
                 fb = [["ev", self.id()]] + self.block(depth + 1, c_f, budget, 0, 3)
+                if r.chance(0.06):
+                    fb = []          # `finally { }`: nothing to run, but the exit that was under way must still continue
+            if cb is not None and r.chance(0.04):
+                cb = []              # `catch e { }`
             return ["try", body, cb, fb]
         if k < 62:
             kind = "for" if r.chance(0.6) else "while"
